@@ -76,10 +76,12 @@ LongName(w) == IF HasEq(w) THEN SubSeq(w, 3, EqPos(w) - 1) ELSE Rest(w, 3)
 LongVal(w)  == Rest(w, EqPos(w) + 1)
 
 \* table lookup: the first entry that matches (C: table order)
-FindShort(c) == IF \E j \in 1 .. NOpt : Tb[j].sh = c
-                THEN CHOOSE j \in 1 .. NOpt : Tb[j].sh = c /\ \A q \in 1 .. (j - 1) : Tb[q].sh # c ELSE 0
-FindLong(nm) == IF \E j \in 1 .. NOpt : Tb[j].lg = nm
-                THEN CHOOSE j \in 1 .. NOpt : Tb[j].lg = nm /\ \A q \in 1 .. (j - 1) : Tb[q].lg # nm ELSE 0
+FindShortIn(T, c) == IF \E j \in 1 .. Len(T) : T[j].sh = c
+                     THEN CHOOSE j \in 1 .. Len(T) : T[j].sh = c /\ \A q \in 1 .. (j - 1) : T[q].sh # c ELSE 0
+FindLongIn(T, nm) == IF \E j \in 1 .. Len(T) : T[j].lg = nm
+                     THEN CHOOSE j \in 1 .. Len(T) : T[j].lg = nm /\ \A q \in 1 .. (j - 1) : T[q].lg # nm ELSE 0
+FindShort(c) == FindShortIn(Tb, c)
+FindLong(nm) == FindLongIn(Tb, nm)
 \* a word that spells a known option (an abstract option does not take such a word as its value: S)
 IsKnownOptionWord(w) == \/ IsLongWord(w) /\ FindLong(LongName(w)) # 0
                         \/ IsShortWord(w) /\ FindShort(w[2]) # 0
@@ -97,6 +99,21 @@ SplitWords(t) ==
                     THEN CHOOSE k \in b .. Len(t) : t[k] = d /\ \A z \in b .. (k - 1) : t[z] # d
                     ELSE Len(t) + 1
          IN <<SubSeq(t, b, e - 1)>> \o SplitWords(Rest(t, e + 1))
+
+---------------------------------------------------------------------------------------------
+(* Tabulation.  The alphabet and the tables are constants, so the character-level facts about every token and the  *)
+(* table lookups for every token are constant-level definitions: TLC evaluates them once instead of once per state. *)
+(* They add nothing: every entry is one of the operators above applied to the token's text.                         *)
+WordFacts(w) == [dash |-> StartsDash(w), long |-> IsLongWord(w), short |-> IsShortWord(w), lone |-> IsLone(w),
+                 eq |-> HasEq(w), val |-> IF HasEq(w) THEN LongVal(w) ELSE <<>>,
+                 bool |-> IsBoolWord(w), true |-> w \in BoolTrue, len |-> Len(w)]
+Fact == [t \in 1 .. Len(TokText) |-> WordFacts(TokText[t])]
+LongOptOf == [tn \in 1 .. Len(Tables) |-> [t \in 1 .. Len(TokText) |->
+                 IF IsLongWord(TokText[t]) THEN FindLongIn(Tables[tn], LongName(TokText[t])) ELSE 0]]
+ShortOptOf == [tn \in 1 .. Len(Tables) |-> [t \in 1 .. Len(TokText) |->
+                 [p \in 1 .. Len(TokText[t]) |-> FindShortIn(Tables[tn], TokText[t][p])]]]
+FW == Fact[argv[i]]            \* facts about the word under the cursor
+FN == Fact[argv[i + 1]]        \* ... and about the next word
 
 ---------------------------------------------------------------------------------------------
 (* targets *)
@@ -119,8 +136,8 @@ Go(ni, nl, nflags, ntv, nmark, dlo, dhi, opn, nre) ==
 
 Scanning == phase \in {"pre", "main"} /\ i <= NArgs
 P        == IF l = 0 THEN 2 ELSE l                        \* letter position inside a short word
-InShort  == Scanning /\ (l >= 2 \/ IsShortWord(W))
-LastLetter == P = Len(W)
+InShort  == Scanning /\ (l >= 2 \/ FW.short)
+LastLetter == P = FW.len
 HasNext  == i < NArgs
 Nxt      == Txt(i + 1)
 \* after letter P of a short word: next letter or next word
@@ -129,8 +146,8 @@ NextL == IF LastLetter THEN 0 ELSE P + 1
 
 \* the option the cursor is at (0 = none / unknown)
 CurOpt == IF ~Scanning THEN 0
-          ELSE IF l = 0 /\ IsLongWord(W) THEN FindLong(LongName(W))
-          ELSE IF InShort THEN FindShort(W[P]) ELSE 0
+          ELSE IF l = 0 /\ FW.long THEN LongOptOf[tb][argv[i]]          \* = FindLong(LongName(W))
+          ELSE IF InShort THEN ShortOptOf[tb][argv[i]][P] ELSE 0         \* = FindShort(W[P])
 
 \* value assignment (only in the pass the option belongs to)
 Assign(j, v) == IF InPass(j) THEN [tv EXCEPT ![j] = v] ELSE tv
@@ -144,63 +161,63 @@ ValueOK(j, w) == IF Kind(j) = "int" THEN IsDecimal(w) ELSE TRUE
 (* Every action is  guard /\ effect; the guards (G...) are state predicates of the cursor position and of the     *)
 (* option j the cursor is at (j = CurOpt, 0 = unknown).  A cursor position no guard accepts is a spelling outside  *)
 (* the argument universe (X) - see OpExcluded.                                                                     *)
-IsLongHere  == l = 0 /\ IsLongWord(W)
-ValuelessPos == (IsLongHere /\ ~HasEq(W)) \/ (InShort /\ LastLetter)      \* "-x" as last letter or "--long" without '='
+IsLongHere  == l = 0 /\ FW.long
+ValuelessPos == (IsLongHere /\ ~FW.eq) \/ (InShort /\ LastLetter)      \* "-x" as last letter or "--long" without '='
 Attached    == Rest(W, P + 1)                                             \* what follows letter P in a short word
 
 \* S: a word that does not begin with '-' is a non-option word and is left alone
-GNonOption == l = 0 /\ ~StartsDash(W)
+GNonOption == l = 0 /\ ~FW.dash
 OpNonOption ==
     /\ Scanning /\ GNonOption
     /\ Go(i + 1, 0, flags, tv, mark, 0, 0, FALSE, FALSE)
 
 \* E: a lone "-" / bare "--" is either counted bad or left as a non-option word; it never assigns (S)
-GLoneDash == l = 0 /\ IsLone(W)
+GLoneDash == l = 0 /\ FW.lone
 OpLoneDash ==
     /\ Scanning /\ GLoneDash
     /\ Go(i + 1, 0, flags, tv, AnyAt(mark, i), 0, 1, FALSE, FALSE)
 
 \* C: unknown long option: counted bad, word skipped
 GUnknownLong(j) == IsLongHere /\ j = 0
-OpUnknownLong(j) ==
+DoUnknownLong(j) ==
     /\ GUnknownLong(j)
     /\ Go(i + 1, 0, flags, tv, AnyAt(mark, i), 1, 1, FALSE, FALSE)
 
 \* C: unknown short letter: counted bad, the rest of the bundle is still parsed
 GUnknownShort(j) == InShort /\ j = 0
-OpUnknownShort(j) ==
+DoUnknownShort(j) ==
     /\ GUnknownShort(j)
     /\ Go(NextI, NextL, flags, tv, AnyAt(mark, i), 1, 1, FALSE, FALSE)
 
 \* "-x" inside or at the end of a bundle, x boolean (or counter): sets its bits (S) / counts (I).  E: a boolean word
 \* right after the bundle is either swallowed and ignored or left as a non-option word.  X: "-xon"
 GShortFlag(j) == InShort /\ j # 0 /\ Kind(j) \in {"bool", "cnt"} /\ ~IsBoolWord(Attached)
-OpShortFlag(j) ==
+DoShortFlag(j) ==
     /\ GShortFlag(j)
     /\ LET nt == IF Kind(j) = "cnt" THEN Assign(j, TV(tv[j].n + 1, FALSE, <<>>, <<>>)) ELSE tv
            nf == IF Kind(j) = "bool" THEN SetBool(j, TRUE) ELSE flags IN
-       IF LastLetter /\ HasNext /\ IsBoolWord(Nxt)
+       IF LastLetter /\ HasNext /\ FN.bool
        THEN Go(i + 2, 0, nf, nt, AnyAt(Gone(i), i + 1), 0, 0, FALSE, FALSE)
        ELSE Go(NextI, NextL, nf, nt, Gone(i), 0, 0, FALSE, FALSE)
 
 \* "-xVALUE": the rest of the word is the value, verbatim (S)
 GShortAttachedValue(j) == /\ InShort /\ j # 0 /\ ~LastLetter /\ Kind(j) \in {"int", "str"}
                           /\ ValueOK(j, Attached) /\ ~StartsDash(Attached)
-OpShortAttachedValue(j) ==
+DoShortAttachedValue(j) ==
     /\ GShortAttachedValue(j)
     /\ Go(i + 1, 0, flags, Assign(j, ValueTV(j, Attached)), Gone(i), 0, 0, FALSE, InPass(j) /\ IsReassign(j))
 
 \* "-x VALUE": the next word is the value, verbatim (S); X: a value that begins with '-'
 GShortNextValue(j) == /\ InShort /\ j # 0 /\ LastLetter /\ HasNext /\ Kind(j) \in {"int", "str"}
-                      /\ ValueOK(j, Nxt) /\ ~StartsDash(Nxt)
-OpShortNextValue(j) ==
+                      /\ ValueOK(j, Nxt) /\ ~FN.dash
+DoShortNextValue(j) ==
     /\ GShortNextValue(j)
     /\ Go(i + 2, 0, flags, Assign(j, ValueTV(j, Nxt)), Gone2(i), 0, 0, FALSE, InPass(j) /\ IsReassign(j))
 
 \* "--long" for a boolean (or counter) with no boolean word after it: set (S); a following non-boolean word is left alone (S)
-GLongFlag(j) == /\ IsLongHere /\ j # 0 /\ ~HasEq(W) /\ Kind(j) \in {"bool", "cnt"}
-                /\ ~(Kind(j) = "bool" /\ HasNext /\ IsBoolWord(Nxt))
-OpLongFlag(j) ==
+GLongFlag(j) == /\ IsLongHere /\ j # 0 /\ ~FW.eq /\ Kind(j) \in {"bool", "cnt"}
+                /\ ~(Kind(j) = "bool" /\ HasNext /\ FN.bool)
+DoLongFlag(j) ==
     /\ GLongFlag(j)
     /\ Go(i + 1, 0, IF Kind(j) = "bool" THEN SetBool(j, TRUE) ELSE flags,
           IF Kind(j) = "cnt" THEN Assign(j, TV(tv[j].n + 1, FALSE, <<>>, <<>>)) ELSE tv,
@@ -208,64 +225,64 @@ OpLongFlag(j) ==
 
 \* "--long=WORD" / "--long WORD", WORD a boolean word: set or clear accordingly (S).  X: "--long=junk"
 GLongBoolWord(j) == /\ IsLongHere /\ j # 0 /\ Kind(j) = "bool"
-                    /\ IF HasEq(W) THEN IsBoolWord(LongVal(W)) ELSE HasNext /\ IsBoolWord(Nxt)
-OpLongBoolWord(j) ==
+                    /\ IF FW.eq THEN IsBoolWord(FW.val) ELSE HasNext /\ FN.bool
+DoLongBoolWord(j) ==
     /\ GLongBoolWord(j)
-    /\ IF HasEq(W)
-       THEN Go(i + 1, 0, SetBool(j, LongVal(W) \in BoolTrue), tv, Gone(i), 0, 0, FALSE, FALSE)
-       ELSE Go(i + 2, 0, SetBool(j, Nxt \in BoolTrue), tv, Gone2(i), 0, 0, FALSE, FALSE)
+    /\ IF FW.eq
+       THEN Go(i + 1, 0, SetBool(j, (FW.val \in BoolTrue)), tv, Gone(i), 0, 0, FALSE, FALSE)
+       ELSE Go(i + 2, 0, SetBool(j, FN.true), tv, Gone2(i), 0, 0, FALSE, FALSE)
 
 \* "--long=VALUE" (S)
-GLongEqValue(j) == IsLongHere /\ j # 0 /\ HasEq(W) /\ Kind(j) \in {"int", "str"} /\ ValueOK(j, LongVal(W))
-OpLongEqValue(j) ==
+GLongEqValue(j) == IsLongHere /\ j # 0 /\ FW.eq /\ Kind(j) \in {"int", "str"} /\ ValueOK(j, FW.val)
+DoLongEqValue(j) ==
     /\ GLongEqValue(j)
-    /\ Go(i + 1, 0, flags, Assign(j, ValueTV(j, LongVal(W))), Gone(i), 0, 0, FALSE, InPass(j) /\ IsReassign(j))
+    /\ Go(i + 1, 0, flags, Assign(j, ValueTV(j, FW.val)), Gone(i), 0, 0, FALSE, InPass(j) /\ IsReassign(j))
 
 \* "--long VALUE" (S); X: a value that begins with '-'
-GLongNextValue(j) == /\ IsLongHere /\ j # 0 /\ ~HasEq(W) /\ HasNext /\ Kind(j) \in {"int", "str"}
-                     /\ ValueOK(j, Nxt) /\ ~StartsDash(Nxt)
-OpLongNextValue(j) ==
+GLongNextValue(j) == /\ IsLongHere /\ j # 0 /\ ~FW.eq /\ HasNext /\ Kind(j) \in {"int", "str"}
+                     /\ ValueOK(j, Nxt) /\ ~FN.dash
+DoLongNextValue(j) ==
     /\ GLongNextValue(j)
     /\ Go(i + 2, 0, flags, Assign(j, ValueTV(j, Nxt)), Gone2(i), 0, 0, FALSE, InPass(j) /\ IsReassign(j))
 
 \* S: an option that needs a value and has none: counted bad at least once (exact count not claimed), assigns
 \* nothing, parsing continues and terminates
 GMissingValue(j) == j # 0 /\ ValuelessPos /\ ~HasNext /\ NeedsValue(j)
-OpMissingValue(j) ==
+DoMissingValue(j) ==
     /\ GMissingValue(j)
     /\ Go(i + 1, 0, flags, tv, AnyAt(mark, i), IF InPass(j) THEN 1 ELSE 0, 0, TRUE, FALSE)
 
 \* "-e w1 w2 ..." / "--exec w1 w2 ...": the argument list swallows the rest of the line, verbatim (S).  X: "-eWORD"
 GArgListRest(j) == j # 0 /\ ValuelessPos /\ HasNext /\ Kind(j) = "args"
-OpArgListRest(j) ==
+DoArgListRest(j) ==
     /\ GArgListRest(j)
     /\ Go(NArgs + 1, 0, flags, Assign(j, TV(0, TRUE, <<>>, [k \in 1 .. (NArgs - i) |-> Txt(i + k)])),
           [k \in 1 .. NArgs |-> IF k > i THEN "gone" ELSE Gone(i)[k]], 0, 0, FALSE, InPass(j) /\ IsReassign(j))
 
 \* "--exec=w1 w2 'w 3'": the value is split into words, quote-aware (S); parsing continues with the next word
-GArgListEq(j) == IsLongHere /\ j # 0 /\ HasEq(W) /\ Kind(j) = "args"
-OpArgListEq(j) ==
+GArgListEq(j) == IsLongHere /\ j # 0 /\ FW.eq /\ Kind(j) = "args"
+DoArgListEq(j) ==
     /\ GArgListEq(j)
-    /\ Go(i + 1, 0, flags, Assign(j, TV(0, TRUE, <<>>, SplitWords(LongVal(W)))), Gone(i), 0, 0, FALSE,
+    /\ Go(i + 1, 0, flags, Assign(j, TV(0, TRUE, <<>>, SplitWords(FW.val))), Gone(i), 0, 0, FALSE,
           InPass(j) /\ IsReassign(j))
 
 \* abstract option: the client's handler is called with the value or with none.  Value = "=VALUE", the attached rest
 \* of a short word (C), or the next word unless that spells a known option (S).  X: a value that begins with '-'
-AbstEq       == IsLongHere /\ HasEq(W)
+AbstEq       == IsLongHere /\ FW.eq
 AbstAttached == InShort /\ ~LastLetter
 GAbstract(j) == /\ j # 0 /\ Kind(j) = "abst" /\ (IsLongHere \/ InShort)
                 /\ IF AbstEq THEN TRUE
                    ELSE IF AbstAttached THEN ~StartsDash(Attached)
                    ELSE IF ~HasNext THEN TRUE
-                   ELSE IF ~StartsDash(Nxt) THEN TRUE
+                   ELSE IF ~FN.dash THEN TRUE
                    ELSE IsKnownOptionWord(Nxt)
-OpAbstract(j) ==
+DoAbstract(j) ==
     /\ GAbstract(j)
     /\ LET call(hv, v) == Assign(j, TV(tv[j].n + 1, hv, v, <<>>)) IN
-       IF AbstEq THEN Go(i + 1, 0, flags, call(TRUE, LongVal(W)), Gone(i), 0, 0, FALSE, FALSE)
+       IF AbstEq THEN Go(i + 1, 0, flags, call(TRUE, FW.val), Gone(i), 0, 0, FALSE, FALSE)
        ELSE IF AbstAttached THEN Go(i + 1, 0, flags, call(TRUE, Attached), Gone(i), 0, 0, FALSE, FALSE)
        ELSE IF ~HasNext THEN Go(i + 1, 0, flags, call(FALSE, <<>>), Gone(i), 0, 0, FALSE, FALSE)
-       ELSE IF ~StartsDash(Nxt) THEN Go(i + 2, 0, flags, call(TRUE, Nxt), Gone2(i), 0, 0, FALSE, FALSE)
+       ELSE IF ~FN.dash THEN Go(i + 2, 0, flags, call(TRUE, Nxt), Gone2(i), 0, 0, FALSE, FALSE)
        ELSE Go(i + 1, 0, flags, call(FALSE, <<>>), Gone(i), 0, 0, FALSE, FALSE)
 
 \* the argument universe at the cursor: some spelling applies
@@ -274,12 +291,24 @@ InUniverse(j) == \/ GNonOption \/ GLoneDash \/ GUnknownLong(j) \/ GUnknownShort(
                  \/ GLongEqValue(j) \/ GLongNextValue(j) \/ GMissingValue(j) \/ GArgListRest(j) \/ GArgListEq(j)
                  \/ GAbstract(j)
 
-ScanStep == /\ Scanning
-            /\ LET j == CurOpt IN
-               \/ OpNonOption \/ OpLoneDash \/ OpUnknownLong(j) \/ OpUnknownShort(j) \/ OpShortFlag(j)
-               \/ OpShortAttachedValue(j) \/ OpShortNextValue(j) \/ OpLongFlag(j) \/ OpLongBoolWord(j)
-               \/ OpLongEqValue(j) \/ OpLongNextValue(j) \/ OpMissingValue(j) \/ OpArgListRest(j) \/ OpArgListEq(j)
-               \/ OpAbstract(j)
+\* the actions proper: the spelling under the cursor, read with the option the cursor is at
+OpUnknownLong == Scanning /\ DoUnknownLong(CurOpt)
+OpUnknownShort == Scanning /\ DoUnknownShort(CurOpt)
+OpShortFlag == Scanning /\ DoShortFlag(CurOpt)
+OpShortAttachedValue == Scanning /\ DoShortAttachedValue(CurOpt)
+OpShortNextValue == Scanning /\ DoShortNextValue(CurOpt)
+OpLongFlag == Scanning /\ DoLongFlag(CurOpt)
+OpLongBoolWord == Scanning /\ DoLongBoolWord(CurOpt)
+OpLongEqValue == Scanning /\ DoLongEqValue(CurOpt)
+OpLongNextValue == Scanning /\ DoLongNextValue(CurOpt)
+OpMissingValue == Scanning /\ DoMissingValue(CurOpt)
+OpArgListRest == Scanning /\ DoArgListRest(CurOpt)
+OpArgListEq == Scanning /\ DoArgListEq(CurOpt)
+OpAbstract == Scanning /\ DoAbstract(CurOpt)
+
+ScanStep == \/ OpNonOption \/ OpLoneDash \/ OpUnknownLong \/ OpUnknownShort \/ OpShortFlag
+            \/ OpShortAttachedValue \/ OpShortNextValue \/ OpLongFlag \/ OpLongBoolWord \/ OpLongEqValue
+            \/ OpLongNextValue \/ OpMissingValue \/ OpArgListRest \/ OpArgListEq \/ OpAbstract
 
 ---------------------------------------------------------------------------------------------
 (* results and pass sequencing *)
